@@ -24,7 +24,7 @@ def c18_jobs(tier):
 PROPS['C18'] = dict(
     level='exploration', jobs=c18_jobs,
     rule='G8 systems from seeded generators: saddle-point matrices [[A,B1],[B2,C]] (6..40 unknowns, A dominant, B2 = B1^T or independent, C absent / -cI / dominant / explicitly stored zero diagonal) scattered by interleaved, prefix, suffix and random pressure masks given as struct, pattern string or pointer, all of type 1/2 x adjust_p 0/1/2 x simplec_dia x approx_schur; multi-phase block systems (block size 2..4, 2..14 cells, optional unstructured tail with active_rows) for cpr / cpr_drs with identity, SPAI-0 and exact global stage, thresholds and weights; 5-point / 9-point / 7-point diffusion and upwind convection-diffusion (200..1500 unknowns) with 1..5 deflation vectors for deflated_solver with AMG, SPAI-0 and identity preconditioners and CG / BiCGStab. Every case is non-trivial (np, nu > 0; at least two cells); distinct = distinct (sub-check, descriptor) hash.',
-    min_nontrivial=dict(quick=1200, thorough=15000),
+    min_nontrivial=dict(quick=1200, thorough=10000),
     assumptions=COMMON_ASSUME + ['the harness-side exact inner solvers (dense long double LU) are trusted'],
     technique='recording / exact harness-side inner components + dense long-double block formulas; operators extracted on unit vectors; friend accessor for the transfer operators; plain -O2 (1 and 4 threads) and ASan/UBSan',
     level_text='schur_pressure_correction, cpr, cpr_drs and deflated_solver are instantiated with exact, recording inner components; their actions, the sub-matrices they build and their transfer operators are compared with the dense formulas of the documentation on seeded saddle-point, multi-phase and diffusion systems. Held means no observed configuration deviated from its formula beyond the stated rounding bound.',
